@@ -172,6 +172,16 @@ func pdfSingleFaults(b *base, emit func(desc string, data []byte)) {
 				emit(fmt.Sprintf("stream-truncate@%d", f.Start), splice(d, f.Start+n/2, f.End, nil))
 				emit(fmt.Sprintf("stream-empty@%d", f.Start), splice(d, f.Start, f.End, nil))
 				emit(fmt.Sprintf("stream-zero@%d", f.Start), splice(d, f.Start, f.End, make([]byte, n)))
+				// a JPEG (DCTDecode data): frame header dimensions 65535 x 65535, 0 x 0, and 65535 x 1
+				if n > 4 && d[f.Start] == 0xFF && d[f.Start+1] == 0xD8 {
+					if k := bytes.Index(d[f.Start:f.End], []byte{0xFF, 0xC0}); k > 0 && f.Start+k+9 < f.End {
+						for _, dim := range [][4]byte{{0xFF, 0xFF, 0xFF, 0xFF}, {0, 0, 0, 0}, {0, 1, 0xFF, 0xFF}} {
+							x := append([]byte{}, d...)
+							copy(x[f.Start+k+5:], dim[:])
+							emit(fmt.Sprintf("jpeg-sof-dims@%d=%x", f.Start+k, dim), x)
+						}
+					}
+				}
 			}
 		case "real":
 			for _, h := range []string{"0", "-1e308", "1e308", "NaN", "....", "1e999999"} {
